@@ -54,8 +54,11 @@ type c05Cfg struct {
 	Max     int64  `json:"max"`             // MaxSize of the cache
 	Crc     bool   `json:"crc,omitempty"`   // config Channel.VerifyCrc (disk: readers verify sealed segments / snapshots)
 	Slots   int    `json:"slots,omitempty"` // readers a sequence may hold open (0 = 2)
-	Alpha   string `json:"alpha,omitempty"` // "" = full alphabet | "r3" = reduced alphabet of the three-reader configuration
+	Alpha   string `json:"alpha,omitempty"` // "" = full alphabet | "r3" = reduced alphabet of the three-reader configuration | "big" = reduced alphabet of the large-block configuration
+	Shift   int64  `json:"shift,omitempty"` // first offset = 96 + Shift (-91 => 5: rdb.left-size is negative; -96 => 0: every "0 means none" default is a real offset)
 }
+
+func (c c05Cfg) base() int64 { return c05Base + c.Shift }
 
 func (c c05Cfg) String() string {
 	s := fmt.Sprintf("%s,L=%d,max=%d", c.Backend, c.L, c.Max)
@@ -67,6 +70,9 @@ func (c c05Cfg) String() string {
 	}
 	if c.Alpha != "" {
 		s += ",alpha=" + c.Alpha
+	}
+	if c.Shift != 0 {
+		s += fmt.Sprintf(",base=%d", c.base())
 	}
 	return s
 }
@@ -81,9 +87,16 @@ func (c c05Cfg) slots() int {
 // c05R3 is the alphabet of the three-reader configuration: enough to put three started
 // (or unstarted) readers on one segment and then reset, switch id, replace the writer or
 // append/rotate.
-var c05R3 = map[string]bool{"aof": true, "aofD": true, "fb": true, "fd": true, "eof": true, "OL": true, "OR": true, "oL": true, "oR": true,
+// c05Big is the alphabet of the large-block configuration (L = 9000: every append, snapshot,
+// segment and verification pass spans several 4 KiB / 8 KiB buffers; the reader pipe is one
+// 8 KiB ring, so it wraps, and "PL" starts a reader whose consumer is held back until the
+// final probes, so its pump stalls in a full pipe).
+var c05Big = map[string]bool{"aof+": true, "delX": true, "rdbF": true, "rdbH": true, "aof": true, "aofD": true, "f1": true, "fb": true, "fc": true, "fd": true, "eof": true,
+	"oL": true, "OL": true, "PL": true, "OR": true, "oS-": true, "oM": true, "c0": true, "s0": true, "del": true, "sidN": true, "reo": true, "rdbF~": true}
+
+var c05R3 = map[string]bool{"aof-": true, "aof+": true, "delX": true, "aof": true, "aofD": true, "fb": true, "fd": true, "eof": true, "OL": true, "OR": true, "oL": true, "oR": true,
 	"s0": true, "c0": true, "c1": true, "rdbF": true, "rdbF~": true, "del": true, "del~": true, "sidN": true, "reo": true}
-func (c c05Cfg) large() bool    { return c.Max >= 1<<20 }
+func (c c05Cfg) large() bool    { return c.Max >= 1<<20 || c.Max < 0 }
 
 type c05Scenario struct {
 	Cfg c05Cfg   `json:"cfg"`
@@ -147,6 +160,7 @@ type c05Reader struct {
 	probe   bool
 	// oracle state
 	invalid    bool  // opened before a history-changing reset
+	paused     bool  // started, but the harness does not read from it yet (pump stalls once the pipe is full)
 	rescanned  bool  // a SetRunId (directory re-scan) happened while it was open
 	mustEnd    bool  // invalidated by a reset (new snapshot, DelRunId): once started it has to end or fail
 	limit      int64 // when invalid: first offset/index it may NOT deliver
@@ -174,6 +188,7 @@ type c05Env struct {
 
 	runID  string
 	lastID string
+	prevID string // the id selected before the current one (renamed away or deleted)
 	idSeq  int
 	hist   int
 	snap   *c05Snap
@@ -190,6 +205,8 @@ type c05Env struct {
 	graced    bool
 	leakedRdbReader bool // a never-started disk snapshot reader was closed by its owner (still registered in the data set)
 	gen       uint64 // vpoll generation of this execution
+	loose     bool            // a writer away from the right edge was accepted: no exact range equality any more
+	gapLo, gapHi int64        // hole left by such a writer [gapLo,gapHi): offsets in it were never written
 	wakeDesc  bool            // during the current operation poll timers fire in reverse park order
 	snapStalled bool          // memory snapshot writer is waiting for space with all bytes handed over
 	lastOp    string          // last structural op (signature context)
@@ -200,6 +217,10 @@ type c05Env struct {
 }
 
 func (e *c05Env) disk() bool { return e.cfg.Backend == "disk" }
+
+// exact: the reported view must equal the model (nothing can be collected, no writer was
+// accepted away from the right edge).
+func (e *c05Env) exact() bool { return e.cfg.large() && !e.loose }
 
 // hiRight: one past the highest offset ever fed in the current history (the cache may
 // have been emptied by the collector and refilled from a lower offset since).
@@ -606,6 +627,45 @@ func (e *c05Env) checkView() {
 		e.fail("StartPoint names another run id than the one selected", "startpoint-id", d)
 		return
 	}
+	// questions asked with an id that is not the selected one: nothing is offered for it
+	for _, id := range []string{"zz", e.prevID} {
+		if id == "" || id == e.runID {
+			continue
+		}
+		fl, fr := e.ch.GetOffsetRange(id)
+		rl, rs := e.ch.GetRdb(id)
+		anyValid := false
+		for _, x := range []int64{-1, v.l, v.r, v.rdbL} {
+			if e.ch.IsValidOffset(Offset{RunId: id, Offset: x}) {
+				anyValid = true
+			}
+		}
+		if fl != -1 || fr != -1 || rl != -1 || rs != -1 || anyValid {
+			d["foreign_id"] = id
+			d["foreign_answers"] = fmt.Sprintf("range=(%d,%d) rdb=(%d,%d) valid=%v", fl, fr, rl, rs, anyValid)
+			e.fail("the cache answers for a run id that is not the selected one", "foreign-id", d)
+			return
+		}
+	}
+	// the unknown id "?" is valid exactly when no snapshot could be replayed (channel.go)
+	if e.exact() {
+		if q := e.ch.IsValidOffset(Offset{RunId: "?", Offset: -1}); q != (e.snap == nil) {
+			d["question_mark_valid"] = q
+			e.fail("the answer for the unknown run id \"?\" does not match the snapshot on offer", "foreign-id", d)
+			return
+		}
+	}
+	// StartPoint(ids) (the callers' way to select an id: skips \"\" and \"?\" and unknown ids)
+	// must land on the selected id with the same position as StartPoint(nil)
+	sp2, err := e.ch.StartPoint([]string{"", "?", "zz", e.runID})
+	sp3, _ := e.ch.StartPoint([]string{"zz"})
+	if err != nil || sp2.Offset != v.spOff || (sp2.RunId != e.runID && !(sp2.RunId == "?" && v.spOff < 0)) || sp3.RunId != "?" || sp3.Offset != -1 || e.ch.RunId() != e.runID {
+		d["startpoint_ids"] = fmt.Sprintf("%s:%d err=%v", sp2.RunId, sp2.Offset, err)
+		d["startpoint_foreign"] = fmt.Sprintf("%s:%d", sp3.RunId, sp3.Offset)
+		d["selected"] = e.ch.RunId()
+		e.fail("StartPoint(ids) does not select the cached id at its newest byte (or answers for an unknown id)", "startpoint-ids", d)
+		return
+	}
 	if (v.l < 0) != (v.r < 0) || v.l > v.r {
 		e.fail("reported range is not a range", "range-shape", d)
 		return
@@ -614,11 +674,14 @@ func (e *c05Env) checkView() {
 		e.fail("a snapshot is offered for replay although it was not (completely) written", "rdb-offer", d)
 		return
 	}
+	if e.loose && e.hiRight() > r {
+		r = e.hiRight() // bytes right of an accepted inner writer were written once
+	}
 	if v.r > r && !(v.r == v.l && e.snap != nil && v.r == e.snap.left) {
 		e.fail("reported right edge is beyond the bytes written", "range-beyond", d)
 		return
 	}
-	if e.cfg.large() {
+	if e.exact() {
 		// no collection can happen: the reported view must equal the model
 		if v.l != l || (v.r != r && !e.memBlocked()) {
 			e.fail("reported range differs from the bytes written (no collection possible)", "range", d)
@@ -701,7 +764,7 @@ func (e *c05Env) expectCaughtUp(ctx string) {
 	_, r := e.ch.GetOffsetRange(e.runID)
 	for _, rd := range e.allRd {
 		rd := rd
-		if !rd.started || rd.invalid || !rd.mustFollow {
+		if !rd.started || rd.paused || rd.invalid || !rd.mustFollow {
 			continue
 		}
 		if rd.aof {
@@ -752,7 +815,7 @@ func (e *c05Env) expectInvalidatedEnded(ctx string) {
 	}
 	for _, rd := range e.allRd {
 		rd := rd
-		if !rd.mustEnd || !rd.started {
+		if !rd.mustEnd || !rd.started || rd.paused {
 			continue
 		}
 		if e.waitUntil(func() bool { _, ended := rd.snapshot(); return ended }) {
@@ -855,7 +918,7 @@ func (e *c05Env) writerEnded() {
 			}
 			e.snap = nil
 		}
-	} else if e.aofStart >= 0 && e.right == e.aofStart {
+	} else if !e.loose && e.aofStart >= 0 && e.right == e.aofStart {
 		e.aofStart, e.right = -1, -1
 	}
 }
@@ -870,6 +933,9 @@ func (e *c05Env) opSetRunID(id string) {
 		e.fail("SetRunId failed", "op-error", map[string]interface{}{"error": err.Error()})
 		return
 	}
+	if e.lastID != "" && e.lastID != id {
+		e.prevID = e.lastID
+	}
 	e.runID, e.lastID = id, id
 	for _, r := range e.allRd {
 		r.rescanned = true
@@ -879,7 +945,7 @@ func (e *c05Env) opSetRunID(id string) {
 
 func (e *c05Env) opRdb(mode string) {
 	size := 2*e.cfg.L + 3
-	left := c05Base
+	left := e.cfg.base()
 	g := newGate()
 	var h RdbChannelWriter
 	var err error
@@ -917,7 +983,7 @@ func (e *c05Env) opAof() {
 	off := sp.Offset
 	e.hiRight()
 	if off < 0 {
-		off = c05Base
+		off = e.cfg.base()
 		e.aofStart, e.right = -1, -1
 	}
 	if e.aofStart >= 0 && off < e.right && off >= e.aofStart && e.memBlocked() {
@@ -939,6 +1005,50 @@ func (e *c05Env) opAof() {
 	} else if off != e.right {
 		e.fail("StartPoint offset differs from the newest byte written", "startpoint", map[string]interface{}{"startpoint": off, "model_right": e.right})
 		return
+	}
+	e.startWriter("aof", g, h)
+	e.settle()
+	e.cleanupStales()
+	e.settle()
+}
+
+// opAofAt: a segment writer at an offset that is NOT the cache's right edge (delta = -1:
+// one byte inside, +L: beyond a hole). Either the cache refuses it and nothing changes
+// (the memory back end's documented rule), or it accepts it and then everything it reports
+// must still be readable and byte-exact (checked by the usual clauses; exact range equality
+// is no longer demanded because the statement does not say which part has to survive).
+func (e *c05Env) opAofAt(delta int64) {
+	if e.aofStart < 0 || e.right <= e.aofStart {
+		return
+	}
+	off := e.right + delta
+	before := e.view()
+	g := newGate()
+	var h AofChannelWriter
+	var err error
+	e.call(false, func() { h, err = e.ch.NewAofWritter(g, off) })
+	e.events++
+	if err != nil {
+		g.Close(nil)
+		e.settle()
+		if after := e.view(); after != before {
+			e.fail("a refused writer (offset not at the right edge) changed what the cache reports", "refused-writer-changed-view",
+				map[string]interface{}{"offset": off, "before": fmt.Sprint(before), "after": fmt.Sprint(after), "error": err.Error()})
+		}
+		return
+	}
+	e.relax()
+	e.retireWriter()
+	e.loose = true
+	e.logf("writer at %d accepted (right edge was %d)", off, e.right)
+	if delta > 0 {
+		// nothing was ever written in the hole: bytes left of it may survive or not
+		e.gapLo, e.gapHi = e.right, off
+	}
+	e.hiRight()
+	e.right = off
+	if off < e.aofStart {
+		e.aofStart = off
 	}
 	e.startWriter("aof", g, h)
 	e.settle()
@@ -1075,6 +1185,23 @@ func (e *c05Env) opWriterClose() {
 	e.settle()
 }
 
+// opDelForeign: DelRunId("zz") - an id that is neither selected nor cached.
+func (e *c05Env) opDelForeign() {
+	before := e.view()
+	var err error
+	e.call(true, func() { err = e.ch.DelRunId("zz") })
+	e.events++
+	e.settle()
+	if err != nil {
+		e.fail("DelRunId of a foreign run id failed", "op-error", map[string]interface{}{"error": err.Error()})
+		return
+	}
+	if after := e.view(); after != before || e.ch.RunId() != e.runID {
+		e.fail("DelRunId of a run id that is not the selected one changed the cache", "foreign-id",
+			map[string]interface{}{"before": fmt.Sprint(before), "after": fmt.Sprint(after), "selected": e.ch.RunId(), "model": e.runID})
+	}
+}
+
 // stopWriter is the harness side of "the connection is gone": source EOF, Close.
 func (e *c05Env) stopWriter() {
 	if e.w != nil {
@@ -1087,7 +1214,7 @@ func (e *c05Env) openAt(x int64, probe bool, label string) *c05Reader {
 	valid := e.ch.IsValidOffset(off)
 	cr, err := e.ch.NewReader(off)
 	e.events++
-	if e.cfg.large() && e.aofStart >= 0 && x >= e.aofStart && x <= e.right && !valid && !e.memBlocked() {
+	if e.exact() && e.aofStart >= 0 && x >= e.aofStart && x <= e.right && !valid && !e.memBlocked() {
 		// nothing can have been collected: every offset that was written must still be offered
 		e.fail("an offset inside the bytes written is reported invalid although no collection is possible", "written-not-valid", map[string]interface{}{"offset": x, "model_range": []int64{e.aofStart, e.right}, "label": label})
 		return nil
@@ -1127,6 +1254,22 @@ func (e *c05Env) startReader(r *c05Reader) {
 	r.started = true
 	r.wait = usync.NewWaitCloser(nil)
 	r.cr.Start(r.wait)
+	go func() {
+		r.wait.WgWait()
+		r.mu.Lock()
+		r.exited = true
+		r.mu.Unlock()
+	}()
+	e.events++
+	if !r.paused {
+		e.consume(r)
+	}
+}
+
+// consume starts the eager consumer of a started reader. A reader started with "PL" gets
+// it only in the final probes: until then its pump fills the pipe ring and stalls there.
+func (e *c05Env) consume(r *c05Reader) {
+	r.paused = false
 	br := r.cr.IoReader()
 	go func() {
 		buf := make([]byte, 256)
@@ -1144,13 +1287,6 @@ func (e *c05Env) startReader(r *c05Reader) {
 			r.mu.Unlock()
 		}
 	}()
-	go func() {
-		r.wait.WgWait()
-		r.mu.Lock()
-		r.exited = true
-		r.mu.Unlock()
-	}()
-	e.events++
 }
 
 func (e *c05Env) closeReader(r *c05Reader) {
@@ -1200,7 +1336,9 @@ func (e *c05Env) openTargets() []struct {
 	v := e.view()
 	seen := map[int64]bool{}
 	add := func(n string, x int64) {
-		if x < 0 || seen[x] {
+		// negative offsets are real inputs: the callers open a reader at rdb.left - rdb.size
+		// (negative for a young master) and -1 is the "nothing stored" position
+		if seen[x] {
 			return
 		}
 		seen[x] = true
@@ -1236,6 +1374,14 @@ func (e *c05Env) apply(op string) {
 	case op == "aof":
 		e.lastOp = op
 		e.opAof()
+	case op == "aof-":
+		e.lastOp = "aof-misaligned"
+		e.opAofAt(-1)
+	case op == "aof+":
+		e.lastOp = "aof-misaligned"
+		e.opAofAt(e.cfg.L)
+	case op == "delX": // DelRunId of an id that is not the selected one: nothing may change
+		e.opDelForeign()
 	case op == "aofD": // new writer + 2L+3 bytes (three segments) as one step
 		e.lastOp = "aof"
 		e.opAof()
@@ -1262,9 +1408,10 @@ func (e *c05Env) apply(op string) {
 			n = 2*e.cfg.L + 3
 		}
 		e.feed(n)
-	case op[0] == 'o' || op[0] == 'O': // "oX" = open, "OX" = open and start at once (what every caller does)
+	case op[0] == 'o' || op[0] == 'O' || op[0] == 'P': // "oX" = open, "OX" = open and start at once (what every caller does), "PX" = the same with a consumer that does not read yet
 		structural = false
-		start := op[0] == 'O'
+		start := op[0] != 'o'
+		paused := op[0] == 'P'
 		op = "o" + op[1:]
 		slot := -1
 		for i := 0; i < e.cfg.slots(); i++ {
@@ -1279,6 +1426,7 @@ func (e *c05Env) apply(op string) {
 				if r != nil {
 					e.readers[slot] = r
 					if start {
+						r.paused = paused
 						e.startReader(r)
 					}
 				}
@@ -1367,7 +1515,7 @@ func (e *c05Env) enabled(tier string) ([]string, map[string]string) {
 	var ops []string
 	risky := map[string]string{} // op -> shape of the dead-lock it may run into ("rdb" | "poll")
 	if e.runID == "" {
-		if e.cfg.Alpha == "r3" {
+		if e.cfg.Alpha != "" {
 			return []string{"sidN"}, risky
 		}
 		return []string{"sidS", "sidN"}, risky
@@ -1399,6 +1547,12 @@ func (e *c05Env) enabled(tier string) ([]string, map[string]string) {
 	ops = append(ops, "rdbF", "rdbP", "rdbH")
 	if e.w == nil || e.w.kind == "aof" {
 		ops = append(ops, "aof", "aofD")
+		if e.aofStart >= 0 && e.right > e.aofStart && !e.loose && e.cfg.Alpha != "" {
+			ops = append(ops, "aof-", "aof+") // (reduced alphabets only)
+		}
+	}
+	if e.cfg.Alpha != "" {
+		ops = append(ops, "delX")
 	}
 	if e.w != nil && !e.snapStalled {
 		ops = append(ops, "f1", "fa", "fb", "fc", "fd")
@@ -1418,6 +1572,9 @@ func (e *c05Env) enabled(tier string) ([]string, map[string]string) {
 			if tg.name == "oL" || tg.name == "oR" {
 				ops = append(ops, "O"+tg.name[1:])
 			}
+			if tg.name == "oL" && e.cfg.Alpha == "big" {
+				ops = append(ops, "PL")
+			}
 		}
 	}
 	for i, r := range e.readers {
@@ -1434,10 +1591,14 @@ func (e *c05Env) enabled(tier string) ([]string, map[string]string) {
 	// "sidS" (SetRunId of the current id while a writer is live) is not part of the
 	// alphabet: every caller selects the run id before it creates writers.
 	ops = append(ops, "sidSq", "sidN", "del", "reo")
-	if e.cfg.Alpha == "r3" {
+	if e.cfg.Alpha != "" {
+		set := c05R3
+		if e.cfg.Alpha == "big" {
+			set = c05Big
+		}
 		kept := ops[:0]
 		for _, op := range ops {
-			if c05R3[op] {
+			if set[op] {
 				kept = append(kept, op)
 			}
 		}
@@ -1468,6 +1629,9 @@ func (e *c05Env) key() string {
 		fmt.Fprintf(&sb, "snap(%d,%d,%d)|", e.snap.left, e.snap.size, e.snap.written)
 	}
 	fmt.Fprintf(&sb, "aof[%d,%d)|", e.aofStart, e.right)
+	if e.loose {
+		fmt.Fprintf(&sb, "loose gap[%d,%d)|", e.gapLo, e.gapHi)
+	}
 	if e.w != nil {
 		fmt.Fprintf(&sb, "w=%s|", e.w.kind)
 	}
@@ -1515,7 +1679,7 @@ func (e *c05Env) key() string {
 			continue
 		}
 		n, ended := r.snapshot()
-		rs = append(rs, fmt.Sprintf("(aof=%v h=%d pos=%d n=%d st=%v inv=%v lim=%d mf=%v end=%v)", r.aof, (e.hist-r.hist)%3, r.pos, n, r.started, r.invalid, r.limit, r.mustFollow, ended))
+		rs = append(rs, fmt.Sprintf("(aof=%v h=%d pos=%d n=%d st=%v p=%v inv=%v lim=%d mf=%v end=%v)", r.aof, (e.hist-r.hist)%3, r.pos, n, r.started, r.paused, r.invalid, r.limit, r.mustFollow, ended))
 	}
 	sort.Strings(rs)
 	sb.WriteString(strings.Join(rs, ""))
@@ -1550,6 +1714,9 @@ func (e *c05Env) probes() {
 		if r != nil && !r.started {
 			e.startReader(r)
 		}
+		if r != nil && r.paused {
+			e.consume(r)
+		}
 	}
 	e.settle()
 	e.expectCaughtUp("probe:start-open-readers")
@@ -1561,9 +1728,7 @@ func (e *c05Env) probes() {
 	v := e.view()
 	xs := map[int64]bool{}
 	addx := func(x int64) {
-		if x >= 0 {
-			xs[x] = true
-		}
+		xs[x] = true
 	}
 	if v.l >= 0 {
 		for _, x := range []int64{v.l - 1, v.l, v.r, v.r + 1, (v.l + v.r) / 2} {
@@ -1794,27 +1959,40 @@ func c05Exec(t *testing.T, scn c05Scenario, tier string) c05Outcome {
 
 func c05Configs(tier string) []c05Cfg {
 	var out []c05Cfg
-	Ls := []int64{8}
-	if tier == "thorough" {
-		Ls = []int64{8, 16}
-	}
-	for _, be := range []string{"disk", "mem"} {
-		for _, L := range Ls {
-			out = append(out, c05Cfg{Backend: be, L: L, Max: 1 << 20})
-			out = append(out, c05Cfg{Backend: be, L: L, Max: 2*L + 2})
+	const big = 1 << 20
+	if tier != "thorough" {
+		// quick: the first offset (96 | 5 | 0) is spread over the configurations instead of
+		// multiplied with them
+		out = append(out,
+			c05Cfg{Backend: "disk", L: 8, Max: big},             // searched one level deeper (runC05)
+			c05Cfg{Backend: "disk", L: 8, Max: 18, Shift: -91},  // base 5: rdb.left - size < 0
+			c05Cfg{Backend: "mem", L: 8, Max: big, Shift: -96},  // base 0
+			c05Cfg{Backend: "mem", L: 8, Max: 18},
+			c05Cfg{Backend: "disk", L: 8, Max: big, Crc: true, Shift: -96},
+			c05Cfg{Backend: "disk", L: 8, Max: big, Slots: 3, Alpha: "r3"},
+			c05Cfg{Backend: "mem", L: 8, Max: big, Slots: 3, Alpha: "r3", Shift: -91},
+		)
+	} else {
+		for _, be := range []string{"disk", "mem"} {
+			for _, L := range []int64{8, 16} {
+				out = append(out, c05Cfg{Backend: be, L: L, Max: big})
+				out = append(out, c05Cfg{Backend: be, L: L, Max: 2*L + 2})
+			}
+			out = append(out, c05Cfg{Backend: be, L: 8, Max: big, Shift: -96}, c05Cfg{Backend: be, L: 8, Max: 18, Shift: -91})
+			// MaxSize <= 0 = unlimited; 4L+8 = "snapshot plus two segments fit, a third does not"
+			out = append(out, c05Cfg{Backend: be, L: 8, Max: -1}, c05Cfg{Backend: be, L: 8, Max: 4*8 + 8})
 		}
+		// checksum verification (config Channel.VerifyCrc) only changes the disk readers
+		out = append(out, c05Cfg{Backend: "disk", L: 8, Max: big, Crc: true}, c05Cfg{Backend: "disk", L: 8, Max: 18, Crc: true},
+			c05Cfg{Backend: "disk", L: 16, Max: big, Crc: true}, c05Cfg{Backend: "disk", L: 8, Max: big, Crc: true, Shift: -96})
+		// three reader slots, reduced alphabet, one level deeper
+		out = append(out, c05Cfg{Backend: "disk", L: 8, Max: big, Slots: 3, Alpha: "r3"}, c05Cfg{Backend: "mem", L: 8, Max: big, Slots: 3, Alpha: "r3"},
+			c05Cfg{Backend: "disk", L: 8, Max: big, Slots: 3, Alpha: "r3", Crc: true}, c05Cfg{Backend: "mem", L: 8, Max: big, Slots: 3, Alpha: "r3", Shift: -96})
 	}
-	// checksum verification (config Channel.VerifyCrc) only changes the disk readers
-	out = append(out, c05Cfg{Backend: "disk", L: 8, Max: 1 << 20, Crc: true})
-	if tier == "thorough" {
-		out = append(out, c05Cfg{Backend: "disk", L: 8, Max: 18, Crc: true}, c05Cfg{Backend: "disk", L: 16, Max: 1 << 20, Crc: true})
-	}
-	// three reader slots, reduced alphabet, one level deeper
-	out = append(out, c05Cfg{Backend: "disk", L: 8, Max: 1 << 20, Slots: 3, Alpha: "r3"})
-	out = append(out, c05Cfg{Backend: "mem", L: 8, Max: 1 << 20, Slots: 3, Alpha: "r3"})
-	if tier == "thorough" {
-		out = append(out, c05Cfg{Backend: "disk", L: 8, Max: 1 << 20, Slots: 3, Alpha: "r3", Crc: true})
-	}
+	// large blocks: L = 9000 (appends 9000/9001/18003 B, snapshot 18003 B, segments > 8 KiB),
+	// reduced alphabet, one level less
+	out = append(out, c05Cfg{Backend: "disk", L: 9000, Max: 1 << 30, Alpha: "big"}, c05Cfg{Backend: "disk", L: 9000, Max: 1 << 30, Alpha: "big", Crc: true},
+		c05Cfg{Backend: "mem", L: 9000, Max: 1 << 30, Alpha: "big"})
 	return out
 }
 
@@ -1859,6 +2037,9 @@ func runC05(t *testing.T, rep *mc.Reporter) {
 		}
 		if cfg.Alpha == "r3" {
 			depth = baseDepth + 1 // reduced alphabet: three readers + reset needs five operations
+		}
+		if cfg.Alpha == "big" {
+			depth = baseDepth - 1
 		}
 		seen := map[string]bool{}
 		var states, transitions int64
@@ -1955,6 +2136,7 @@ func runC05(t *testing.T, rep *mc.Reporter) {
 		}
 		rep.Count("states", states)
 		rep.Count("transitions", transitions)
+		rep.Count("transitions["+cfg.String()+"]", transitions)
 		if c05LateConds > 0 {
 			rep.Count("late_completions", c05LateConds)
 			c05LateConds = 0
